@@ -31,7 +31,10 @@ def dec_amount(rnd, cls, d):
         return Decimal(1).scaleb(-d)
     if cls == "typical":
         digits = rnd.randint(0, min(d, 8))
-        return (Decimal(rnd.randint(1, 10 ** 7)) / Decimal(10 ** 3)).quantize(Decimal(1).scaleb(-digits)) + Decimal(1).scaleb(-d) * rnd.randint(0, 9)
+        a = (Decimal(rnd.randint(1, 10 ** 7)) / Decimal(10 ** 3)).quantize(Decimal(1).scaleb(-digits)) + Decimal(1).scaleb(-d) * rnd.randint(0, 9)
+        if rnd.random() < 0.35:      # more digits than the token has: a fraction of an atomic unit (0.1 .. 0.9 wei) is offered on top
+            a += Decimal(1).scaleb(-d - 1) * rnd.randint(1, 9)
+        return a
     return Decimal(rnd.randint(10 ** 11, 10 ** 12))          # huge: 1e11 .. 1e12 tokens
 
 
@@ -46,6 +49,9 @@ def instantiate(rnd, c):
     elif kind == "touch_max":
         tB = hi_ok
         tA = tB - sp * rnd.randint(1, 5000)
+    elif kind == "zero_bound":          # tick 0 (sqrt price exactly 2^96) is one of the bounds
+        w = min(rnd.choice([1, 1, rnd.randint(2, 20), rnd.randint(100, 5000)]) * sp, hi_ok)
+        tA, tB = (0, w) if rnd.random() < 0.5 else (-w, 0)
     else:
         centre = rnd.randint(-300000 // sp, 300000 // sp) * sp
         w = {"narrow": rnd.randint(1, 5), "single_spacing": 1, "wide": rnd.randint(5000 // sp + 1, 200000 // sp)}[kind]
